@@ -195,6 +195,18 @@ pub fn dispatch(a: &[String]) -> String {
         format!("CHANGED {} -> {} results {}", before, after, results.join(" ; "))
       }
     }
+    "xsd" => {
+      // xsd <integer|decimal|double> <text>: typed input conversion, printed through Display
+      let r = match a[1].as_str() {
+        "integer" => dmntk_feel::values::Value::try_from_xsd_integer(&a[2]),
+        "decimal" => dmntk_feel::values::Value::try_from_xsd_decimal(&a[2]),
+        _ => dmntk_feel::values::Value::try_from_xsd_double(&a[2]),
+      };
+      match r {
+        Ok(v) => format!("VALUE {}", v),
+        Err(e) => format!("ERR {}", e),
+      }
+    }
     "number_display" => match a[1].parse::<dmntk_feel_number::FeelNumber>() {
       Ok(n) => n.to_string(),
       Err(e) => format!("ERR {}", e),
